@@ -98,7 +98,7 @@ class struct:
         return count * BYTE_SIZE[t]
 
 
-FILES = {"open": None}  # contracts install a callable (name, mode) -> file-like
+FILES = {"open": None, "loadtxt": None, "exists": None}  # contracts install callables modelling the file system
 
 
 class _File:
@@ -233,3 +233,31 @@ class Mock:
 
     def __mro_entries__(self, bases):
         return (object,)
+
+
+class StrTable:
+    """result of np.loadtxt(dtype=str): a 2-D table of strings (descriptor files)"""
+
+    def __init__(self, rows):
+        self.rows = [list(r) for r in rows]
+
+    def __len__(self):
+        return len(self.rows)
+
+    def __getitem__(self, key):
+        i, j = key
+        return self.rows[i][j]
+
+
+def loadtxt(fname, dtype=float, delimiter=None, skiprows=0, **kw):
+    f = FILES["loadtxt"]
+    if f is None:
+        raise Undecided("np.loadtxt(%r) without a file model" % (fname,))
+    return f(fname, dtype, delimiter, skiprows)
+
+
+np_stub.loadtxt = loadtxt
+
+
+class _ospath:
+    pass
